@@ -52,6 +52,11 @@ def build_and_extract(progs, repo, log):
     key = h.hexdigest()[:16]
     base = os.path.join(corpus_dir(), "facts", key)
     fpath = os.path.join(base, "corpus.json")
+    if os.path.exists(fpath):
+        try:
+            os.utime(base, None)      # LRU
+        except OSError:
+            pass
     if not os.path.exists(fpath):
         work = os.path.join(corpus_dir(), "work-%d" % os.getpid())
         shutil.rmtree(work, ignore_errors=True)
@@ -109,6 +114,19 @@ def gc_target(limit_gb=3.0):
         pass
 
 
+def gc_corpus_facts(keep=12, min_age=3600):
+    """The corpus fact files are keyed by (corpus text, tree hash): one per analysed tree. Keep the most recently used."""
+    root = os.path.join(corpus_dir(), "facts")
+    try:
+        ds = sorted((os.path.getmtime(os.path.join(root, d)), d) for d in os.listdir(root))
+    except OSError:
+        return
+    now = time.time()
+    for mt, d in ds[:-keep]:
+        if now - mt > min_age:
+            shutil.rmtree(os.path.join(root, d), ignore_errors=True)
+
+
 def write_manifest(work, repo, name):
     repo = fresh_repo_copy(work, repo)
     with open(os.path.join(work, "Cargo.toml"), "w") as fh:
@@ -138,6 +156,7 @@ def run(run):
     progs = gen.select(run.tier, run.seed)
     t0 = time.time()
     gc_target()
+    gc_corpus_facts()
     cf, rows, err = build_and_extract(progs, repo, None)
     if cf is None:
         run.fail("O19.0", "corpus-compiles", "the generated corpus does not compile against the macros of /repo (a valid handler program is rejected or expands to ill-typed code):\n%s" % err)
